@@ -205,7 +205,7 @@ func init() {
 		Rule: "histories of 10–60 top-level statements `hK := <op over earlier values>` (ops: every built-in/native property found at run time applied in 7 call forms, literals that unpack earlier values, calls through */**/kwargs, all chain contexts, slicing followed by +/* on slice and source, the same source used twice, infix operators, closures) with every result kept alive and aliased in a holder array; " +
 			"after every statement a structural monitor walks everything reachable from the scope and compares the shallow fingerprint (type, payload, proto, ordered child pointers, key lists) of every previously seen object, and Inspect() of every bound variable must stay byte-identical. " +
 			"non-trivial = the statement returned a non-error value while ≥1 earlier container was reachable; distinct = distinct (op label, receiver family) pairs executed that way" +
-			" Added: index by an earlier value, same-family and small-int arithmetic, stored caught errors raised again (their stack trace is part of the fingerprint), and self-checking statements that keep what each step of one chain received and compare at the end of the chain.",
+			" Added: index by an earlier value, same-family and small-int arithmetic, stored caught errors raised again (their stack trace is part of the fingerprint), and self-checking statements that keep what each step of one chain received and compare at the end of the chain. Sixth round: == / != / === between values of one family (equal copies included), plain and as a self-check listing both operands again.",
 		Assumptions: []string{
 			"exempt by the statement: variable frames (reassignment) and iterators (next/recur); stack-trace text of error objects is not part of the fingerprint (C19)",
 			"the monitor only sees exported fields (Elems, Pairs, Keys, PrivateKeys, HashKeys, NonHashablePairs, Start/Stop/Step, Env, ErrKind/Msg, Proto())",
